@@ -10,6 +10,7 @@ from .. import lib, ref
 from ..ref import Graph
 
 LEVEL = "exploration"
+TECHNIQUE = 'runtime monitoring: round-trip and differential monitor (legacy vs modular-equivalent streams compared outside the adjacency region and as edge sets inside it) over generated mazes of all kinds; dataset-level tokenization compared per maze'
 RULE = ("3 legacy modes x max_grid_size {None, n, 50} and their modular equivalents (from_legacy) x mazes of all three kinds built by "
         "the harness (spanning trees and tree+percolation, so every row/column index occurs in a connection), grid 2..20 incl. "
         "multi-digit coordinates, one-cell and two-cell solutions: cls.from_tokens(maze.as_tokens(tok), tok) for the token list and "
